@@ -34,7 +34,9 @@ type vFaultStore struct {
 	tracing bool
 	readFaults bool
 	onlyGoroutine uint64 // when non-zero: only operations issued by this goroutine are traced / faulted
-	onMark     func(mark string) // trace-only markers (never faulted): end of a WriteUpdateWithXattrs call
+	onMark     func(mark string) // trace-only markers (never faulted): end of a WriteUpdateWithXattrs call ("~end key"; with noteAttempts "~fail key" when the call failed)
+	// noteAttempts (C11 only; C05 / C14 leave it unset and keep the behaviour above): see WriteUpdateWithXattrs
+	noteAttempts bool
 
 	released []uint64 // sequences published as unused through AddRaw of _sync:unusedSeq(s) documents
 }
@@ -79,7 +81,49 @@ func (f *vFaultStore) WriteUpdateWithXattrs(ctx context.Context, k string, xattr
 	f.mu.Lock()
 	hook := f.onAttempt
 	nested := f.depth > 0
+	na := f.noteAttempts && (f.onlyGoroutine == 0 || vGoID() == f.onlyGoroutine)
 	f.mu.Unlock()
+	if na {
+		// C11: every attempt's compare-and-swap write is an operation of its own ("WriteAttempt key", noted after
+		// the attempt's update callback succeeded and before the write); a fault on it makes the write fail after
+		// the callback's side effects (reserved sequence, attachment / revision-body documents) have happened.
+		// onAttempt (not re-entered by nested writes) runs first, so that a harness can force a CAS retry.
+		attempt := 0
+		wrapper := func(current []byte, xattrs map[string][]byte, cas uint64) (sgbucket.UpdatedDoc, error) {
+			attempt++
+			upd, err := callback(current, xattrs, cas)
+			if hook != nil && !nested {
+				f.mu.Lock()
+				f.depth++
+				f.mu.Unlock()
+				herr := hook(k, attempt, err)
+				f.mu.Lock()
+				f.depth--
+				f.mu.Unlock()
+				if err == nil && herr != nil {
+					return upd, herr
+				}
+			}
+			if err == nil {
+				if nerr := f.note("WriteAttempt", k); nerr != nil {
+					return upd, nerr
+				}
+			}
+			return upd, err
+		}
+		cas, err := f.DataStore.WriteUpdateWithXattrs(ctx, k, xattrKeys, exp, previous, opts, wrapper)
+		f.mu.Lock()
+		om := f.onMark
+		f.mu.Unlock()
+		if om != nil {
+			if err == nil {
+				om("~end " + k)
+			} else {
+				om("~fail " + k)
+			}
+		}
+		return cas, err
+	}
 	if hook == nil || nested {
 		cas, err := f.DataStore.WriteUpdateWithXattrs(ctx, k, xattrKeys, exp, previous, opts, callback)
 		f.mu.Lock()
@@ -208,6 +252,44 @@ func (f *vFaultStore) DeleteWithXattrs(ctx context.Context, k string, xattrKeys 
 	return f.DataStore.DeleteWithXattrs(ctx, k, xattrKeys)
 }
 
+// ---- sub-document and special xattr writes (principal invalidation uses SubdocInsert) ----
+func (f *vFaultStore) SubdocInsert(ctx context.Context, k string, subdocPath string, cas uint64, value interface{}) error {
+	if err := f.note("SubdocInsert", k); err != nil {
+		return err
+	}
+	return f.DataStore.SubdocInsert(ctx, k, subdocPath, cas, value)
+}
+func (f *vFaultStore) WriteSubDoc(ctx context.Context, k string, subdocPath string, cas uint64, value []byte) (uint64, error) {
+	if err := f.note("WriteSubDoc", k); err != nil {
+		return 0, err
+	}
+	return f.DataStore.WriteSubDoc(ctx, k, subdocPath, cas, value)
+}
+func (f *vFaultStore) DeleteSubDocPaths(ctx context.Context, k string, paths ...string) error {
+	if err := f.note("DeleteSubDocPaths", k); err != nil {
+		return err
+	}
+	return f.DataStore.DeleteSubDocPaths(ctx, k, paths...)
+}
+func (f *vFaultStore) RemoveXattrs(ctx context.Context, k string, xattrKeys []string, cas uint64) error {
+	if err := f.note("RemoveXattrs", k); err != nil {
+		return err
+	}
+	return f.DataStore.RemoveXattrs(ctx, k, xattrKeys, cas)
+}
+func (f *vFaultStore) WriteTombstoneWithXattrs(ctx context.Context, k string, exp uint32, cas uint64, xattrValue map[string][]byte, xattrsToDelete []string, deleteBody bool, opts *sgbucket.MutateInOptions) (uint64, error) {
+	if err := f.note("WriteTombstoneWithXattrs", k); err != nil {
+		return 0, err
+	}
+	return f.DataStore.WriteTombstoneWithXattrs(ctx, k, exp, cas, xattrValue, xattrsToDelete, deleteBody, opts)
+}
+func (f *vFaultStore) WriteResurrectionWithXattrs(ctx context.Context, k string, exp uint32, body []byte, xattrs map[string][]byte, opts *sgbucket.MutateInOptions) (uint64, error) {
+	if err := f.note("WriteResurrectionWithXattrs", k); err != nil {
+		return 0, err
+	}
+	return f.DataStore.WriteResurrectionWithXattrs(ctx, k, exp, body, xattrs, opts)
+}
+
 func (f *vFaultStore) takeReleased() []uint64 {
 	f.mu.Lock()
 	defer f.mu.Unlock()
@@ -269,6 +351,25 @@ func (f *vFaultStore) GetWithXattrs(ctx context.Context, k string, xattrKeys []s
 		return nil, nil, 0, err
 	}
 	return f.DataStore.GetWithXattrs(ctx, k, xattrKeys)
+}
+
+func (f *vFaultStore) GetSubDocRaw(ctx context.Context, k string, subdocPath string) ([]byte, uint64, error) {
+	if err := f.noteRead("GetSubDocRaw", k); err != nil {
+		return nil, 0, err
+	}
+	return f.DataStore.GetSubDocRaw(ctx, k, subdocPath)
+}
+func (f *vFaultStore) GetExpiry(ctx context.Context, k string) (uint32, error) {
+	if err := f.noteRead("GetExpiry", k); err != nil {
+		return 0, err
+	}
+	return f.DataStore.GetExpiry(ctx, k)
+}
+func (f *vFaultStore) Exists(ctx context.Context, k string) (bool, error) {
+	if err := f.noteRead("Exists", k); err != nil {
+		return false, err
+	}
+	return f.DataStore.Exists(ctx, k)
 }
 
 // ---- pass-through of the optional interfaces the code type-asserts for ----
